@@ -20,7 +20,7 @@ func checkC03(p *Prog, r *Report) {
 	c03Globals(p, r, s)
 	c03Locks(p, r, s)
 	c03PoolKey(p, r)
-	c03Session(p, r, s)
+	c03Session(p, r, s, "C03.R2b")
 	c03Pooled(p, r, s)
 	c03Go(p, r, s)
 	c03MapRanges(p, r, s)
@@ -220,8 +220,8 @@ var sessionFieldsOnRunPath = map[string]string{
 	"HermesOutWriter": "output writer factory; read on the run path, lazily defaulted only when nil (never nil: R2c)",
 }
 
-func c03Session(p *Prog, r *Report, s *ssaProg) {
-	r.Rule("C03.R2b", "the session is the only object shared by concurrent runs and carries no run-dependent state: run-reachable code touches only the confirmed session fields, and sessions are constructed only by NewHermesSession (which sets the writer factory)", 3)
+func c03Session(p *Prog, r *Report, s *ssaProg, rule string) {
+	r.Rule(rule, "the session is the only object shared by concurrent runs and carries no run-dependent state: run-reachable code touches only the confirmed session fields, and sessions are constructed only by NewHermesSession (which sets the writer factory)", 3)
 	run := s.runFn()
 	if run == nil {
 		r.Ob("run", "-", false, "HermesSession.Run not found")
